@@ -66,9 +66,15 @@ def readback(fs, name):
 def one_case(r, cls, kinds):
     t = gen_factory.Template()
     conds = [gen_factory.gen_condition(t, r, kinds) for _ in range(r.randint(1, 3))]
+    ncond_holes = t.n
     acts = [gen_action(t, r) for _ in range(r.randint(1, 2))]
     mt = r.choice(["anyof", "allof"])
-    vals = [value(r, cls) for _ in range(t.n)]
+    if cls == "colon":
+        # condition values that begin with a colon (an IPv6 address, a smiley, a time): data, not tags — in conditions only
+        # (for action arguments a leading colon IS taken as a tag: KF-C06-1)
+        vals = [(r.choice(["::1", ":-)", ":30:00", ":is", ":notme"]) if (i < ncond_holes and r.random() < 0.6) else value(r, "plain")) for i in range(t.n)]
+    else:
+        vals = [value(r, cls) for _ in range(t.n)]
     conds, acts = gen_factory.fill(conds, vals), gen_factory.fill(acts, vals)
     want = (normalise(conds), normalise(acts), mt)
     probs = []
@@ -100,7 +106,7 @@ def one_case(r, cls, kinds):
         t2 = gen_factory.Template()
         conds2 = [gen_factory.gen_condition(t2, r, kinds) for _ in range(r.randint(1, 2))]
         acts2 = [gen_action(t2, r) for _ in range(r.randint(1, 2))]
-        vals2 = [value(r, cls) for _ in range(t2.n)]
+        vals2 = [value(r, "plain" if cls == "colon" else cls) for _ in range(t2.n)]
         conds2, acts2 = gen_factory.fill(conds2, vals2), gen_factory.fill(acts2, vals2)
         want2 = (normalise(conds2), normalise(acts2), mt)
         fs.updatefilter("f", "f", conds2, acts2, mt)
@@ -143,10 +149,11 @@ def run(ctx):
     viol = []
     evals = nontriv = 0
     samples = []
-    classes = [("plain", COND_KINDS)] * 6 + [("comma", COND_KINDS), ("quote", COND_KINDS), ("plain", ["header-list"]), ("plain", ["address"])]
+    classes = [("plain", COND_KINDS)] * 6 + [("comma", COND_KINDS), ("quote", COND_KINDS), ("plain", ["header-list"]), ("plain", ["address"]),
+               ("colon", ["header", "nothdr", "body", "currentdate", "envelope"])]
     for i in range(n):
         cls, kinds = classes[i % len(classes)]
-        label = cls if kinds is COND_KINDS else kinds[0]
+        label = cls if (kinds is COND_KINDS or cls == "colon") else kinds[0]
         conds, acts, mt, probs = one_case(r, cls, kinds)
         evals += 1
         nontriv += 1 if len(conds) > 1 or any(isinstance(c[1], str) and c[1].startswith(":not") for c in conds if len(c) > 1) else 0
